@@ -61,7 +61,9 @@ def run(tier, seed, replay=None):
              "the dipole components; Thole tensor for damping 0.1..1.1 and polarisabilities 0.5..10.5 on both sides of au3 = 40",
         assumptions=["R = |a| and sqrt(3) enter the model as 20-digit rational approximations; exp(-au3) of the Thole damping is computed by the harness",
                      "IEEE rounding not modelled: tolerances 1e-10 (model), 1e-8..1e-9 (invariances), 1e-4 (point-charge limit) relative to the largest multipole term",
-                     "rotation invariance and the point-charge limit for all ranks are searched numerically only (PARTIAL); the theorems cover exchange symmetry, "
-                     "the rank-0/1 point formulas, the field identity and the Thole clauses",
+                     "rotation invariance for ALL ranks is a theorem (rotation_invariant_all_ranks, over any field of characteristic zero with s*s = 3, e.g. the reals with s = sqrt 3; the field "
+                     "model is generated from the same source statements and equals the rational model at K = Q: model_is_field_model) through the Cartesian closed form "
+                     "closed_form_all_ranks; the modelled rotation of the quadrupole is CalculateCartesianMultipole / R Theta R^T / CalculateSphericalMultipole as in StaticSite::Rotate, "
+                     "whose agreement with the code is what the numeric rotation clause of the correspondence checks; the point-charge limit is searched numerically only (PARTIAL)",
                      "induced-dipole interactions (ApplyInducedField, Cholesky_IntraSegment) are not covered"],
         trivial_tags=())
